@@ -125,6 +125,7 @@ def State.init (cfg : Cfg) : State where
 inductive Err where
   | capacity          -- CELER_VALIDATE(... capacity ...) failed
   | notImplemented    -- "multiple consecutive primary insertions"
+  | maxEvents         -- Stepper: "event number ... exceeds max_events"
 deriving Repr, DecidableEq
 
 /-! ### index helpers (detail/Utils.hh) -/
@@ -411,10 +412,15 @@ def stepMid (s : State) : State :=
 def step (oracle : List Outcome) (s : State) : Except (Err × State) State :=
   extendFromSecondaries (stepFront oracle s)
 
-/-- `Stepper::operator()(primaries)`; the `max_events` check is the Stepper's -/
+/-- `Stepper::operator()(primaries)`: the largest event id is validated against `max_events`
+    (`CELER_VALIDATE(max_id->event_id < params_->init()->max_events(), ...)`) BEFORE the
+    primaries are handed to `ExtendFromPrimariesAction::insert`; only then a step is taken.
+    (`make_track_id` indexes `track_counters[event]` without a bounds check in release.) -/
 def stepWith (ps : List Primary) (oracle : List Outcome) (s : State) : Except (Err × State) State :=
-  match insertPrimaries ps s with
-  | .error e => .error (e, s)
-  | .ok s1 => step oracle s1
+  if ¬ (ps.all fun p => decide (p.ev < s.cfg.maxEvents)) then .error (.maxEvents, s)
+  else
+    match insertPrimaries ps s with
+    | .error e => .error (e, s)
+    | .ok s1 => step oracle s1
 
 end CelerVerif.TrackInit
